@@ -37,6 +37,8 @@ def payload_variants(ty, lin):
         return {0: False, 1: lin in args[0]}
     if head.endswith("result::Result") and len(args) == 2:
         return {0: lin in args[0], 1: lin in args[1]}
+    if head.endswith("ops::ControlFlow") and len(args) == 2:      # ControlFlow<B, C>: Continue(C) = 0, Break(B) = 1
+        return {0: lin in args[1], 1: lin in args[0]}
     return None
 
 
@@ -56,7 +58,7 @@ def owns_linear(ty, lin):
     if _is_lin(ty, lin):
         return True
     head, args = _split_generics(ty)
-    if head.endswith("option::Option") or head.endswith("result::Result"):
+    if head.endswith("option::Option") or head.endswith("result::Result") or head.endswith("ops::ControlFlow"):
         return any(_is_lin(a, lin) for a in args)
     return False
 
